@@ -92,6 +92,8 @@ RULE = (
     "independent reference or rejected the input; distinct = distinct (workload, method, boundary-relative length "
     "bucket, outcome) signatures."
 )
+RULE += ' W1 sequences also call Buffer.__init__ again on the live object (usable arguments: fresh buffer; unusable ones: rejected, object unchanged and usable).'
+
 ASSUMPTIONS = [
     "sanitizers instrument _crypto.c/_buffer.c only: reads done inside libcrypto (header-protection sample) are invisible to ASan "
     "and are decided by the boundary contracts instead",
